@@ -227,4 +227,4 @@ def run(ctx: vlib.Ctx):
     brace_sites(ctx, findings)
     ctx.assumptions = ["'rewrite receipts' are read as in DESIGN.md §7 C07: lexer normalization / repair_candidate records and the lenient_parse subtypes that "
                        "transform text; advisories (duplicate_key, deep_nesting, spec_violation/*) are not rewrites",
-                       "proved for every input: the lexer-level bijection between normalised tokens and normalisation receipts (Props/C07receipts); canonical flat / block-structured text has none (C01flat, C01blocks); parser-level rewrites and the tool routes are decided by the receipt oracle and the correspondence"]
+                       "proved for every input: the lexer-level bijection between normalised tokens and normalisation receipts (Props/C07receipts); exact receipts of every alias spelling of expressions (C03expr) and of # section markers (C01sections); canonical flat / block-structured text has none (C01flat, C01blocks); parser-level rewrites and the tool routes are decided by the receipt oracle and the correspondence"]
